@@ -219,8 +219,8 @@ class FromMap(IO):
                 dtype = getattr(meta, "dtype", None)
             return meta_from_array(meta, dtype=dtype)
         if dtype is not None:
-            return np.empty((0,) * ndim, dtype=dtype)
-        return np.empty((0,) * ndim)
+            return np.zeros((0,) * ndim, dtype=dtype)
+        return np.zeros((0,) * ndim)
 
     @functools.cached_property
     def _name(self):
